@@ -14,6 +14,10 @@ pub fn run(a: &Args) {
     let mut n = 0u64;
     let mut samples = vec![];
     let none = json!({});
+    for (name, v) in [("v1_0", IppVersion::v1_0()), ("v1_1", IppVersion::v1_1()), ("v2_0", IppVersion::v2_0()), ("v2_1", IppVersion::v2_1()), ("v2_2", IppVersion::v2_2())] {
+        sink.emit(&json!({"ev": "version", "name": name, "code": v.0}), &none);
+        n += 1;
+    }
     for c in 0..=65535u32 {
         let c = c as u16;
         let h = IppHeader::new(IppVersion::v1_1(), c, 1);
